@@ -15,7 +15,8 @@ MODELS       target c, target py (all support files are templates -> _generate_h
              Over a two-type namespace ns.A.1.0, ns.sub.B.1.0.
 INITIAL      empty `out/`; one foreign 0o640 file; a 0o444 leftover with foreign content at a type-file path; the same at
              a support-file path.
-FAMILIES     the events above are family A; family B = all five modes {0o444,0o644,0o600,0o464,0o446} (the last two:
+FAMILIES     (family D = modes {0o000, 0o200, 0o644}: no bits at all / write-only results, no explicit post-processor)
+             the events above are family A; family B = all five modes {0o444,0o644,0o600,0o464,0o446} (the last two:
              owner-write clear, group/other write set) with no explicit post-processor; family C = modes {0o444,0o644} x
              {none, --pp-run-program <script>, the same + --pp-run-program-arg}; the script appends a marker line in place.
 SEARCH       per family: level-synchronous BFS with deduplication by snapshot; a state is rebuilt by copying its stored
@@ -50,7 +51,8 @@ from vf import c12_fsmodel as fsm
 from vf.core import Ctx, HarnessError, stable_hash
 
 # 0o464 / 0o446: owner-write clear while a group/other write bit is set - "somebody may write" is not "the owner may"
-MODES = (0o444, 0o644, 0o600, 0o464, 0o446)
+# 0o000 / 0o200: no permission bit at all (a falsy number) / write-only: the owner cannot read the result back
+MODES = (0o444, 0o644, 0o600, 0o464, 0o446, 0o000, 0o200)
 GEN_SUPPORT = ("as-needed", "never", "only")
 # "prog"/"progarg": --pp-run-program <script in the sandbox> [--pp-run-program-arg=tagged]; the script appends one marker
 # line to the file it is given (ExternalProgramEditInPlace, runs after the file is written and before SetFileMode)
@@ -67,11 +69,12 @@ if [ $# -ge 2 ]; then tag="$1"; f="$2"; else tag="untagged"; f="$1"; fi
 printf '/* c12-pp %s */\n' "$tag" >> "$f"
 """
 # The full product (5 modes x 5 post-processors x 12) has 300 events and a graph of several thousand states per model;
-# thorough explores three sub-alphabets ("families") completely instead, each to closure.  Quick explores its selection
+# thorough explores four sub-alphabets ("families") completely instead, each to closure.  Quick explores its selection
 # of each family separately as well, so that every history quick runs is a history thorough runs.
 FAMILIES: typing.Dict[str, typing.Tuple[typing.Tuple[int, ...], typing.Tuple[str, ...]]] = {
     "A-linepp": ((0o444, 0o644, 0o600), ("none", "trim", "limit0")),
-    "B-modes": (MODES, ("none",)),
+    "B-modes": ((0o444, 0o644, 0o600, 0o464, 0o446), ("none",)),
+    "D-nobits": ((0o000, 0o200, 0o644), ("none",)),
     "C-program": ((0o444, 0o644), ("none", "prog", "progarg")),
 }
 MODELS: typing.Dict[str, typing.Dict[str, typing.Any]] = {
@@ -133,6 +136,8 @@ def is_core(e: Event, model: str) -> bool:
         if support_only:
             return e.gs == "only"
         return (e.omit, e.gs) in ((False, "as-needed"), (True, "as-needed"), (False, "only"))
+    if k[0] == 0o000 and e.pp == "none" and not e.omit:  # the mode whose number is falsy: written, overwritten, refused
+        return e.gs == ("only" if support_only else "as-needed")
     if support_only:
         return k in (
             (0o644, False, False, "only", "limit0"),
@@ -786,7 +791,7 @@ def run(ctx: Ctx) -> int:
             "Jinja template bytecode cached in memory per process through the engine's bytecode_cache hook; the clean-run table is computed without it and again with it and must agree",
             "nnvg = nunavut.cli.main() in-process with sys.argv set; an escaping exception counts as a reported failure (the console script turns it into exit status 1)",
             "two-type namespace, targets c / py / cpp; SupportGenerator._copy_header is reached only through an injected plain TYPE_SUPPORT resource (no shipped language has one)",
-            "the 300-event product of all option values is explored as three families (line post-processors / all five modes / external program), not as one graph: histories mixing e.g. mode 0o464 with the external program are not covered",
+            "the 300-event product of all option values is explored as four families (line post-processors / five ordinary modes / external program / modes 0o000 and 0o200), not as one graph: histories mixing e.g. mode 0o464 with the external program are not covered",
             "the external program is a 4-line /bin/sh script that appends one marker line; read-only directories, symlinks and non-regular files in the output tree are out of scope (the statement speaks of files)",
         ],
         min_outcomes=("distinct_outcomes", 12),
